@@ -110,3 +110,46 @@ pub fn sm_value(p: u128, w: usize) -> i128 {
         mag
     }
 }
+
+/// Fast variants for fields of at most 64 bits inside a 16-byte buffer (o + w <= 128):
+/// one u128 shift instead of a bit loop.  Independent of the library; cross-checked
+/// against the bit-at-a-time versions by `self_check_fast`.
+#[inline]
+pub fn write16(buf: &mut [u8; 16], o: usize, w: usize, v: u64) {
+    debug_assert!(w >= 1 && w <= 64 && o + w <= 128);
+    let cur = u128::from_be_bytes(*buf);
+    let m: u128 = if w == 64 { u64::MAX as u128 } else { (1u128 << w) - 1 };
+    let sh = 128 - o - w;
+    let new = (cur & !(m << sh)) | (((v as u128) & m) << sh);
+    *buf = new.to_be_bytes();
+}
+
+#[inline]
+pub fn read16(buf: &[u8; 16], o: usize, w: usize) -> u64 {
+    debug_assert!(w >= 1 && w <= 64 && o + w <= 128);
+    let cur = u128::from_be_bytes(*buf);
+    let m: u128 = if w == 64 { u64::MAX as u128 } else { (1u128 << w) - 1 };
+    ((cur >> (128 - o - w)) & m) as u64
+}
+
+pub fn self_check_fast() -> bool {
+    let mut x: u64 = 0x1234_5678_9ABC_DEF0;
+    for i in 0..4000u64 {
+        x = x.wrapping_mul(6364136223846793005).wrapping_add(1442695040888963407 + i);
+        let w = 1 + (x >> 58) as usize % 64;
+        let o = ((x >> 20) as usize) % (128 - w + 1);
+        let v = x.rotate_left(17);
+        let mut a = [0u8; 16];
+        for (j, b) in a.iter_mut().enumerate() {
+            *b = (x >> (j % 8 * 8)) as u8 ^ (j as u8).wrapping_mul(37);
+        }
+        let mut b = a;
+        write16(&mut a, o, w, v);
+        let m: u128 = if w == 64 { u64::MAX as u128 } else { (1u128 << w) - 1 };
+        write(&mut b, o, w, v as u128 & m);
+        if a != b || read16(&a, o, w) as u128 != read(&b, o, w) || read16(&a, o, w) as u128 != (v as u128 & m) {
+            return false;
+        }
+    }
+    true
+}
